@@ -36,6 +36,10 @@ INFO = {
    text="Lean 4 theorems over a byte-level model of the cache framing, the EU parser and the lookup, for ALL file contents: the EU path never panics (the only partial operation, split_at(3), is reached behind a boundary check; the ';' split is always on a boundary), every reported rate text is a contiguous piece of the file as presented, and therefore for EVERY truncation point of a good file a reported rate stands verbatim in the good file. Tied to the Rust by running the built fend binary on every prefix (sampled in quick), single-character substitutions incl. multi-byte characters, framing variants, non-UTF-8 and random edits of representative EU and UN cache files, comparing the rate it prints with the model's rate text and with the numbers that stand verbatim in the file.",
    note="Partial: str::parse::<f64> and is_normal are a parameter of the model (okRate); the UN parser is modelled and diffed but its no-panic/verbatim theorems are not proved yet (its slices follow a successful find of a longer ASCII needle); Unicode White_Space trimming is modelled by an explicit table. Representative cache files are constructed from the formats the parsers accept (no network). Trusted: Lean kernel + 3 axioms, python runner.",
    technique="Lean 4 proof (no-panic + infix/verbatim lemmas over bytes) + differential runs of the built binary on damaged caches", ref="7/C20"),
+ "C19": dict(
+   text="Lean 4 theorems over a model of Action::from_args and eval_exprs with the core evaluator and the file system as parameters: when every earlier expression succeeds the output is exactly what the core returns for the LAST expression in the context the earlier ones left (newline iff requested, nothing for ()/empty); the first failing expression yields status 1, 'Error: msg' on stderr and nothing is evaluated after it; the context is threaded from each expression to the next; help wins; plain positional words are joined by single spaces into one expression. Tied to the Rust by running the built binary on random argument lists (positional / -e / -f / -- / existing and missing files / flags), stdin mode and 15 well-formed and damaged config files, comparing stdout, stderr and exit status with the model fed with fend_core results computed in-process.",
+   note="Partial: the toml crate and the ConfigVisitor decision logic are not modelled in Lean — configuration behaviour (absent/malformed -> defaults + diagnostic; unknown keys warned; recognised keys applied) is checked only by the binary-level stream against a hand-written expectation table. Trusted: Lean kernel + 3 axioms, python runner, the in-process core as oracle for expression results.",
+   technique="Lean 4 proofs over a parametric CLI model + differential runs of the built binary", ref="7/C19"),
 }
 def main():
     hooks = subprocess.check_output("git -C /repo log --format=%H --grep='verif-hooks' --grep='verif hooks' -i", shell=True, text=True).split()
